@@ -220,8 +220,8 @@ def served : Side → Route → Bool
 
 /-- Routes whose query id comes from `Addr.query_id`. -/
 def needsId : Side → Route → Bool
-  | _, .queryInput | _, .completeQuery | _, .killQuery => true
-  | .mpc, .queryStatus => true
+  | .mpc, .queryInput | .mpc, .queryStatus | .mpc, .killQuery => true
+  | _, .completeQuery => true
   | _, _ => false
 
 /-- Routes whose arguments come from `Addr.params`. -/
